@@ -87,7 +87,7 @@ def plan(repo, tier, cap=300000, files=None, cap_cells=1 << 23):
                 seen.add((s, isnovel))
                 big = s > 20000
                 forms = (FORMS_BIG + ("emptyrun",)) if big else FORMS_SMALL
-                if not isnovel and big:
+                if not isnovel and big and c not in CAPACITY:
                     forms = FORMS_BIG[:2]
                 if s > (cap if not isnovel else max(cap, 1 << 20)):
                     forms = ("cells", "rowlen")
